@@ -286,6 +286,8 @@ _ALSO = {
             "zeros) in radix 2, 8, 10 and 16: the exact value is handed on up to u64::MAX, the long-integer path is "
             "taken above it, and no arithmetic overflows on the way (cases, not all literals); the number printer hands the sink "
             "exactly the text itoa / ryu produced (the shortest text that reads back as the same number), once, on every path.", None),
+    "C06": ("when the contents of a list or vector fail to parse, next_value and next_datum return that very error - which "
+            "may be the stream's I/O error - whether or not closing the sequence fails as well (4 cases).", None),
     "C07": ("no buffering writer (whose pending bytes would be flushed in Drop with the error discarded) is interposed on "
             "the print path; local helpers that only forward to write_all count as the write_all they perform; a method with a "
             "`char` / `u8` parameter is compared with the default formatter's sub-range by sub-range of that parameter "
@@ -308,7 +310,8 @@ _ALSO = {
             "unconsumed, whatever follows (384 token vectors); the element parser consumes exactly the tokens of each "
             "documented form (identifier, literal, group, #t/#f/#nil, #\"..\", #(..), #:name, #:\"..\", :name, :\"..\", "
             "negative literal, unquote, punctuation symbols) whatever token follows - nothing is glued on, nothing left "
-            "over (16 forms x 11 followers).",
+            "over (17 forms x 11 followers) - and reads it as the documented kind whatever the text of an identifier or "
+            "literal is (an identifier is always a symbol).",
             "abstract evaluation of the macro crate's token parser per punctuation character, compared with byte classes "
             "and token kinds extracted from the text parser"),
     "C10": ("around each nested construct (list, vector, byte vector, quote shorthand) both APIs can raise exactly the same "
